@@ -1,3 +1,412 @@
 import NunavutVerif.Lemmas.PyObj
+/-!
+# C18 — generated Python data objects validate, reflect and convert faithfully
+
+Property theorems only (definitions: `Model/PyObj.lean`, helper lemmas: `Lemmas/PyObj.lean`).
+Quantifiers: all field types, all candidate values of the modelled Python universe `Py`, every lawful NumPy oracle
+`np` (`NumPy`: what `numpy.array(x, dtype).flatten()` returns fits the dtype; built-in lists of in-dtype scalars and
+same-dtype arrays convert to themselves), all constructor argument lists, all assignment sequences, all well-typed
+objects.  The concrete oracle run by the driver is the lawful `numpy` (Lemmas).
+
+Statement 3 of the property (`_MODEL_` equals the source model) is about `pickle`/`gzip`/`base85` of the Python
+runtime and has no model here; it is checked structurally on every generated class by the harness.
+-/
 namespace NunavutVerif.PyObj
+
+/-! ## 1. a setter raises or stores a value of the field's type -/
+
+/-- T1 (every field type, every candidate): if the setter returns, what it stored is — for a scalar — in the DSDL
+range of the field (`float`: in range, or infinite/NaN, or any value at 64 bit); for an array an ndarray of the
+element dtype whose length is `== capacity` (fixed) / `<= capacity` (variable) and whose elements fit the dtype;
+for a composite an instance of exactly the field's class.  (`ndOK`: a candidate ndarray holds what its dtype can
+hold.)  Otherwise it raised (`ValueError`, `TypeError`, `OverflowError` as coded). -/
+theorem C18_setter_stores_value_of_field_type (np : NumPy) (t : Ty) (x v : Py) (hnd : ndOK x = true)
+    (h : setField np.array t x = .ok v) : stored t v = true := by
+  cases t with
+  | bool => obtain ⟨b, rfl⟩ := setField_bool_ok _ _ _ h; rfl
+  | int s w c =>
+    obtain ⟨i, _, rfl, h1, h2⟩ := setField_int_ok _ _ _ _ _ _ h
+    simp [stored, hasTy, h1, h2]
+  | float w c =>
+    obtain ⟨f, _, rfl, hf⟩ := setField_float_ok _ _ _ _ _ h
+    simpa [stored, hasTy] using hf
+  | arr fixed cap e =>
+    obtain ⟨xs, rfl, hl, hall⟩ := assignArray_stored np fixed cap e x v hnd h
+    simp only [stored, hl, decide_true, Bool.true_and, List.all_eq_true]
+    exact hall
+  | comp cls u fs =>
+    obtain ⟨slots, rfl, rfl⟩ := setField_comp_ok _ _ _ _ _ _ h
+    simp [stored]
+
+/-
+Full statement of the property's first clause (NOT a theorem of the unchanged code — see the witnesses below):
+  ∀ np t x v, ndOK x → instances inside x are well-typed → setField np.array t x = .ok v → hasTy true t v
+i.e. every array element is also in the *DSDL* range of its element type and every element of a composite array is an
+instance of the element class.  The emitted code checks neither (known finding `py-array-elements-not-range-checked`).
+Proved below for the field types where the dtype range equals the DSDL range (`fullyChecked`).
+-/
+
+/-- T1, DSDL-level well-typedness, for every field type except arrays of integers narrower than their numpy dtype and
+arrays of composites (`fullyChecked`, decidable).  `hobj`: the candidate, if it is an instance of the field's class,
+is itself a well-typed instance (the heap invariant the constructors and setters maintain). -/
+theorem C18_setter_sound_partial (np : NumPy) (t : Ty) (x v : Py) (hck : fullyChecked t = true)
+    (hnd : ndOK x = true)
+    (hobj : ∀ cls u fs slots, t = .comp cls u fs → x = .obj cls slots → hasTy true t x = true)
+    (h : setField np.array t x = .ok v) : hasTy true t v = true := by
+  cases t with
+  | bool => obtain ⟨b, rfl⟩ := setField_bool_ok _ _ _ h; rfl
+  | int s w c =>
+    obtain ⟨i, _, rfl, h1, h2⟩ := setField_int_ok _ _ _ _ _ _ h
+    simp [hasTy, h1, h2]
+  | float w c =>
+    obtain ⟨f, _, rfl, hf⟩ := setField_float_ok _ _ _ _ _ h
+    simpa [hasTy] using hf
+  | comp cls u fs =>
+    obtain ⟨slots, rfl, rfl⟩ := setField_comp_ok _ _ _ _ _ _ h
+    exact hobj cls u fs slots rfl rfl
+  | arr fixed cap e =>
+    obtain ⟨xs, rfl, hl, hall⟩ := assignArray_stored np fixed cap e x v hnd h
+    have hall' : xs.all (inDT (dtypeOf e)) = true := List.all_eq_true.2 hall
+    cases e with
+    | bool => simp [hasTy, hl, hall', primNonInt]
+    | float w c => simp [hasTy, hl, hall', primNonInt]
+    | int s w c =>
+      have hw : pickWidth w = w := by simp [fullyChecked] at hck; exact hck.symm
+      have : xs.all (hasTy true (.int s w c)) = true :=
+        List.all_eq_true.2 (fun y hy => inDT_hasTy_int s w c y hw (hall y hy))
+      simp [hasTy, hl, hall', this]
+    | arr _ _ _ => simp [fullyChecked] at hck
+    | comp _ _ _ => simp [fullyChecked] at hck
+
+/-- Witness that the full statement fails on the unchanged code: `uint7[<=4] v`, `obj.v = [200]` stores 200
+(replayed on the generated class by the harness). -/
+example : setField npArray (.arr false 4 (.int false 7 false)) (.list [.int 200])
+      = .ok (.nd (.u 8) [.int 200])
+    ∧ hasTy true (.arr false 4 (.int false 7 false)) (.nd (.u 8) [.int 200]) = false := by
+  constructor <;> rfl
+
+/-- … `numpy.array([300])` (int64) offered to `uint8[<=4]` is wrapped to 44 and stored. -/
+example : setField npArray (.arr false 4 (.int false 8 false)) (.nd (.i 64) [.int 300])
+      = .ok (.nd (.u 8) [.int 44]) := by rfl
+
+set_option maxRecDepth 100000 in
+/-- … `[1e39]` offered to `float32[<=3]` is stored as `[inf]` (1e39 = 5^39 · 2^39). -/
+example : setField npArray (.arr false 3 (.float 32 false)) (.list [.float (.fin false (5 ^ 39 * 2 ^ 39 * one))])
+      = .ok (.nd (.f 32) [.float (.inf false)]) := by rfl
+
+/-- … an array of composites accepts anything (`obj.vin = [1]`). -/
+example : setField npArray (.arr false 2 (.comp 7 false [])) (.list [.int 1]) = .ok (.nd .obj [.int 1]) := by rfl
+
+/-! ### out-of-range and wrong-length candidates raise `ValueError` (and exactly which ones do not) -/
+
+/-- An `int` outside the field's inclusive range raises `ValueError` — for saturated and truncated fields alike
+(the cast mode `c` is not consulted), for every width and signedness. -/
+theorem C18_int_out_of_range_raises_ValueError (np : Oracle) (s : Bool) (w : Nat) (c : Bool) (i : Int)
+    (h : ¬ (intLo s w ≤ i ∧ i ≤ intHi s w)) : setField np (.int s w c) (.int i) = .error .value := by
+  simp [setField, pyInt, bind, Except.bind, h, throw, throwThe, MonadExceptOf.throw]
+
+/-- A finite `float` beyond `±max` of a float16/float32 field raises `ValueError`, whatever the cast mode. -/
+theorem C18_float_out_of_range_raises_ValueError (np : Oracle) (w : Nat) (c neg : Bool) (a : Nat)
+    (hw : w < 64) (h : fmax w < a) : setField np (.float w c) (.float (.fin neg a)) = .error .value := by
+  have h1 : ¬ (64 ≤ w) := by omega
+  have h2 : ¬ (a ≤ fmax w) := by omega
+  simp [setField, pyFloat, bind, Except.bind, floatOK, h1, h2, throw, throwThe, MonadExceptOf.throw]
+
+/-- What the float setter does *not* reject: infinities and NaN at every width, and every float at 64 bit
+(there the range of the field is the range of a Python float). -/
+theorem C18_float_unchecked_cases (np : Oracle) (w : Nat) (c : Bool) (f : F)
+    (h : 64 ≤ w ∨ f = .nan ∨ ∃ n, f = .inf n) : setField np (.float w c) (.float f) = .ok (.float f) := by
+  have : floatOK w f = true := by
+    rcases h with h | h | ⟨n, h⟩
+    · simp [floatOK, h]
+    · subst h; simp [floatOK]
+    · subst h; simp [floatOK]
+  simp [setField, pyFloat, bind, Except.bind, this, pure, Except.pure]
+
+/-- Values that are out of range but do not raise `ValueError`: the exception comes from `int()`/`float()`
+(known finding `py-out-of-range-raises-overflowerror`; nothing is stored). -/
+example : setField npArray (.int false 7 false) (.float (.inf false)) = .error .overflow
+    ∧ setField npArray (.arr false 4 (.int false 8 false)) (.list [.int 256]) = .error .overflow := by
+  constructor <;> rfl
+
+/-- A `bytes`/`bytearray` (or, for string-like arrays, `str`) source of a forbidden length raises `ValueError`
+(repaired code: `fix: generated Python setters reject over-long bytes …`). -/
+theorem C18_bytes_wrong_length_raises_ValueError (np : Oracle) (fixed : Bool) (cap : Nat) (e : Ty) (m : Bool)
+    (bs : List Nat) (hb : byteLike e = true) (hl : lenOK fixed cap bs.length = false) :
+    setField np (.arr fixed cap e) (.bytes m bs) = .error .value
+    ∧ (strLike fixed e = true → setField np (.arr fixed cap e) (.str bs) = .error .value) := by
+  constructor
+  · have henc : encodeStr fixed e (.bytes m bs) = .bytes m bs := by unfold encodeStr; split <;> rfl
+    simp [setField, assignArray, assignCore, henc, hb, hl, throw, throwThe, MonadExceptOf.throw]
+  · intro hs
+    have henc : encodeStr fixed e (.str bs) = .bytes false bs := by simp [encodeStr, hs]
+    simp [setField, assignArray, assignCore, henc, hb, hl, throw, throwThe, MonadExceptOf.throw]
+
+/-- Regression witness for the code before the fix: `uint8[<=4] v`, `obj.v = b"00007"` (5 bytes) stored `[7]`
+because `numpy.array(b"00007", uint8)` parses the buffer as a decimal literal; `b"12345"` raised `OverflowError`. -/
+example : assignArrayBeforeFix npArray false 4 (.int false 8 false) (.bytes false [48, 48, 48, 48, 55])
+      = .ok (.nd (.u 8) [.int 7])
+    ∧ assignArrayBeforeFix npArray false 4 (.int false 8 false) (.bytes false [49, 50, 51, 52, 53]) = .error .overflow
+    ∧ assignArray npArray false 4 (.int false 8 false) (.bytes false [48, 48, 48, 48, 55]) = .error .value := by
+  refine ⟨?_, ?_, ?_⟩ <;> rfl
+
+/-- A list of Python scalars that are values of the element dtype (or generated objects for a composite array), and
+an ndarray of the element dtype, raise `ValueError` when their length is not `== capacity` / `<= capacity`. -/
+theorem C18_sequence_wrong_length_raises_ValueError (np : NumPy) (fixed : Bool) (cap : Nat) (e : Ty) (xs : List Py)
+    (hall : ∀ y ∈ xs, inDT (dtypeOf e) y = true ∧ (dtypeOf e = .obj → isObj y = true))
+    (hl : lenOK fixed cap xs.length = false) :
+    setField np.array (.arr fixed cap e) (.list xs) = .error .value
+    ∧ setField np.array (.arr fixed cap e) (.nd (dtypeOf e) xs) = .error .value := by
+  have hslow1 : slowPath np.array fixed cap (dtypeOf e) (.list xs) = .error .value := by
+    simp [slowPath, np.builtin _ xs hall, bind, Except.bind, hl, throw, throwThe, MonadExceptOf.throw]
+  have hslow2 : slowPath np.array fixed cap (dtypeOf e) (.nd (dtypeOf e) xs) = .error .value := by
+    simp [slowPath, np.same _ xs (fun y hy => (hall y hy).1), bind, Except.bind, hl, throw, throwThe,
+      MonadExceptOf.throw]
+  constructor
+  · have henc : encodeStr fixed e (.list xs) = .list xs := by unfold encodeStr; split <;> rfl
+    simp only [setField, assignArray, assignCore, henc]
+    split <;> simpa [fastPath] using hslow1
+  · have henc : encodeStr fixed e (.nd (dtypeOf e) xs) = .nd (dtypeOf e) xs := by unfold encodeStr; split <;> rfl
+    simp only [setField, assignArray, assignCore, henc]
+    split <;> simpa [fastPath, hl] using hslow2
+
+/-! ### constructors -/
+
+/-- The structure constructor returns only objects all of whose fields satisfy T1 (an absent/`None` argument stores
+the field's default); the class is the constructed one. -/
+theorem C18_struct_ctor_sound (np : NumPy) (cls : Nat) (fs : List Ty) (args : List Py) (o : Py)
+    (hnd : ∀ a ∈ args, ndOK a = true)
+    (h : construct np.array (.comp cls false fs) args = .ok o) :
+    ∃ slots, o = .obj cls slots ∧ storedS fs slots = true := by
+  have key : ∀ (fs : List Ty) (args slots : List Py), (∀ a ∈ args, ndOK a = true) →
+      ctorStruct np.array fs args = .ok slots → storedS fs slots = true := by
+    intro fs
+    induction fs with
+    | nil => intro args slots _ h; simp [ctorStruct, pure, Except.pure] at h; subst h; rfl
+    | cons f fs ih =>
+      intro args slots hnd h
+      simp only [ctorStruct] at h
+      cases hv : setField np.array f (if isNone (args.headD Py.none) = true then defaultVal f else args.headD Py.none) with
+      | error _ => rw [hv] at h; simp [bind, Except.bind] at h
+      | ok v =>
+        rw [hv] at h
+        cases hr : ctorStruct np.array fs args.tail with
+        | error _ => rw [hr] at h; simp [bind, Except.bind] at h
+        | ok rest =>
+          rw [hr] at h
+          simp [bind, Except.bind, pure, Except.pure] at h
+          subst h
+          have hndv : ndOK (if isNone (args.headD Py.none) = true then defaultVal f else args.headD Py.none) = true := by
+            split
+            · exact ndOK_default f
+            · cases args with
+              | nil => rfl
+              | cons a as => exact hnd a List.mem_cons_self
+          have h1 := C18_setter_stores_value_of_field_type np f _ v hndv hv
+          have h2 := ih args.tail rest (fun a ha => hnd a (List.mem_of_mem_tail ha)) hr
+          simp [storedS, h1, h2]
+  simp only [construct] at h
+  cases hs : ctorStruct np.array fs args with
+  | error _ => rw [hs] at h; simp [Except.map] at h
+  | ok slots =>
+    rw [hs] at h; simp [Except.map] at h
+    exact ⟨slots, h.symm, key fs args slots hnd hs⟩
+
+/-! ## 2. a union always holds exactly one option -/
+
+/-- Every union constructor call that returns yields an object with exactly one option that is not `None`
+(whatever the arguments, the option types and the oracle). -/
+theorem C18_union_ctor_one_option (np : Oracle) (cls : Nat) (fs : List Ty) (args : List Py) (o : Py)
+    (h : construct np (.comp cls true fs) args = .ok o) :
+    ∃ slots, o = .obj cls slots ∧ slots.length = fs.length ∧ countSome slots = 1 := by
+  simp only [construct] at h
+  cases hl : ctorUnionLoop np fs args 0 (fs.map (fun _ => Py.none), 0) with
+  | error _ => rw [hl] at h; simp [bind, Except.bind] at h
+  | ok st =>
+    obtain ⟨slots, cnt⟩ := st
+    rw [hl] at h
+    obtain ⟨h1, _, _, h4⟩ := ctorUnionLoop_inv np fs args 0 _ 0 slots cnt (by simp) hl
+    simp only [bind, Except.bind] at h
+    split at h
+    · -- no argument: default-initialise the first option
+      cases fs with
+      | nil => simp [throw, throwThe, MonadExceptOf.throw] at h
+      | cons f0 rest =>
+        simp only at h
+        cases hv : setField np f0 (defaultVal f0) with
+        | error _ => rw [hv] at h; simp at h
+        | ok v =>
+          rw [hv] at h; simp [pure, Except.pure] at h
+          refine ⟨_, h.symm, ?_, ?_⟩
+          · rw [length_oneHot, h1]; simp
+          · exact countSome_oneHot slots 0 v (by rw [h1]; simp) (setField_not_none np f0 _ v hv)
+    · split at h
+      · rename_i _ hc
+        simp [pure, Except.pure] at h
+        exact ⟨slots, h.symm, by rw [h1]; simp, h4 (by omega)⟩
+      · simp [throw, throwThe, MonadExceptOf.throw] at h
+
+/-- A union constructor call with two or more options given never returns an object. -/
+theorem C18_union_ctor_two_options_raises (np : Oracle) (cls : Nat) (fs : List Ty) (args : List Py)
+    (h2 : 2 ≤ givenArgs fs.length args) : ∀ o, construct np (.comp cls true fs) args ≠ .ok o := by
+  intro o h
+  simp only [construct] at h
+  cases hl : ctorUnionLoop np fs args 0 (fs.map (fun _ => Py.none), 0) with
+  | error _ => rw [hl] at h; simp [bind, Except.bind] at h
+  | ok st =>
+    obtain ⟨slots, cnt⟩ := st
+    rw [hl] at h
+    obtain ⟨_, hc, _, _⟩ := ctorUnionLoop_inv np fs args 0 _ 0 slots cnt (by simp) hl
+    simp only [bind, Except.bind] at h
+    split at h
+    · omega
+    · split at h
+      · omega
+      · simp [throw, throwThe, MonadExceptOf.throw] at h
+
+set_option maxRecDepth 100000 in
+/-- … and when every setter involved accepts its value the exception is the `ValueError` of `_init_cnt_ > 1`
+(otherwise it is the exception of the first failing setter, in field order). -/
+example : construct npArray (.comp 1 true [.int false 7 false, .float 32 false]) [.int 1, .int 2] = .error .value
+    ∧ construct npArray (.comp 1 true [.int false 7 false, .float 32 false]) [.none, .str [120]] = .error .value
+    ∧ construct npArray (.comp 1 true [.int false 7 false, .float 32 false]) [.none, .list []] = .error .type := by
+  refine ⟨?_, ?_, ?_⟩ <;> rfl
+
+/-- `C()` selects and default-initialises the first option. -/
+theorem C18_union_ctor_default_first_option (np : Oracle) (cls : Nat) (f0 : Ty) (rest : List Ty) (args : List Py)
+    (h0 : givenArgs (f0 :: rest).length args = 0) :
+    construct np (.comp cls true (f0 :: rest)) args = .ok (defaultVal (.comp cls true (f0 :: rest))) := by
+  have loop : ∀ (fs : List Ty) (args : List Py) (i : Nat) (st : List Py × Nat),
+      givenArgs fs.length args = 0 → ctorUnionLoop np fs args i st = .ok st := by
+    intro fs
+    induction fs with
+    | nil => intro args i st _; rfl
+    | cons f fs ih =>
+      intro args i st hg
+      obtain ⟨slots, cnt⟩ := st
+      have hg' : (if isNone (args.headD Py.none) = true then 0 else 1) + givenArgs fs.length args.tail = 0 := hg
+      have hn : isNone (args.headD Py.none) = true := by
+        cases hh : isNone (args.headD Py.none) with
+        | true => rfl
+        | false => rw [hh] at hg'; simp at hg'
+      have hrest : givenArgs fs.length args.tail = 0 := by omega
+      simp only [ctorUnionLoop, hn, if_true]
+      exact ih args.tail (i + 1) (slots, cnt) hrest
+  simp only [construct, loop (f0 :: rest) args 0 _ h0, bind, Except.bind, setField_default, if_true]
+  simp [pure, Except.pure, defaultVal, defaultU, oneHot]
+
+/-- A union setter that returns leaves exactly the assigned option selected. -/
+theorem C18_union_setter_one_option (np : Oracle) (cls : Nat) (fs : List Ty) (i : Nat) (x : Py) (c : Nat)
+    (slots : List Py) (o' : Py) (h : objSet np (.comp cls true fs) i x (.obj c slots) = .ok o') :
+    ∃ slots', o' = .obj c slots' ∧ slots'.length = slots.length ∧ countSome slots' = 1 := by
+  simp only [objSet] at h
+  split at h
+  · simp at h
+  · rename_i f _
+    cases hv : setField np f x with
+    | error _ => rw [hv] at h; simp [bind, Except.bind] at h
+    | ok v =>
+      rw [hv] at h
+      simp only [bind, Except.bind] at h
+      split at h
+      · rename_i hi
+        simp [pure, Except.pure] at h
+        exact ⟨_, h.symm, length_oneHot _ _ _, countSome_oneHot slots i v hi (setField_not_none np f x v hv)⟩
+      · simp [throw, throwThe, MonadExceptOf.throw] at h
+
+/-- T2, the invariant: after a constructor call that returns, and after every further assignment — accepted or
+raising, in any number and order, with any candidate values — the union holds exactly one option. -/
+theorem C18_union_invariant (np : Oracle) (cls : Nat) (fs : List Ty) (args : List Py) (o : Py)
+    (ops : List (Nat × Py)) (h : construct np (.comp cls true fs) args = .ok o) :
+    ∃ slots, runOps np (.comp cls true fs) o ops = .obj cls slots ∧ slots.length = fs.length ∧ countSome slots = 1 := by
+  obtain ⟨slots, rfl, hlen, hone⟩ := C18_union_ctor_one_option np cls fs args o h
+  clear h
+  induction ops generalizing slots with
+  | nil => exact ⟨slots, rfl, hlen, hone⟩
+  | cons op ops ih =>
+    obtain ⟨i, x⟩ := op
+    simp only [runOps]
+    cases hs : objSet np (.comp cls true fs) i x (.obj cls slots) with
+    | error _ => exact ih slots hlen hone
+    | ok o' =>
+      obtain ⟨slots', rfl, hl', h1'⟩ := C18_union_setter_one_option np cls fs i x cls slots o' hs
+      exact ih slots' (by rw [hl', hlen]) h1'
+
+/-- Non-vacuity: a union with an array and a composite option; construct with the array option, assign an
+out-of-range value (raises, state kept), the composite option, then the first option. -/
+example :
+    let U := Ty.comp 5 true [.int false 7 false, .arr false 3 (.int false 8 false), .comp 2 false [.bool]]
+    construct npArray U [.none, .bytes false [97, 98]] = .ok (.obj 5 [.none, .nd (.u 8) [.int 97, .int 98], .none])
+    ∧ runOps npArray U (.obj 5 [.none, .nd (.u 8) [.int 97, .int 98], .none])
+        [(0, .int 200), (2, .obj 2 [.bool true]), (2, .int 3), (0, .int 5)] = .obj 5 [.int 5, .none, .none] := by
+  constructor <;> rfl
+
+/-! ## 4. `update_from_builtin(C(), to_builtin(o))` reproduces `o` -/
+
+/-- T3: for every composite type `t` of a shape DSDL admits (`wf`) and every well-typed object `o` of it
+(`hasTy false`: scalars in range, arrays of the element dtype within capacity, exactly-one-option unions, nested
+instances well-typed — array elements need only fit the numpy dtype, so objects holding unchecked narrow-integer
+elements are included), `to_builtin` succeeds and `update_from_builtin` applied to **any** well-typed destination
+`d` of the same type — in particular a fresh `C()` — returns an object equal to `o` field by field, dtype by dtype
+(hence with the same serialization).  Structural induction over the nested type (`rt_all`). -/
+theorem C18_builtin_roundtrip (np : NumPy) (t : Ty) (o d : Py) (hw : wf t = true) (hc : isComp t = true)
+    (ho : hasTy false t o = true) (hd : hasTy false t d = true) :
+    ∃ b, toBuiltin t o = .ok b ∧ update np.array t d b = .ok o := by
+  obtain ⟨b, h1, _, h3⟩ := rt_all np t hw o ho
+  refine ⟨b, h1, ?_⟩
+  have hobj : isObj d = true := by
+    cases t with
+    | comp cls u fs => cases d <;> simp_all [hasTy, isObj]
+    | _ => simp [isComp] at hc
+  simp only [update, hc, hobj, Bool.and_self, if_true]
+  exact h3 d (Or.inr hd)
+
+/-- … with the fresh object `C()` as destination (the property's statement). -/
+theorem C18_builtin_roundtrip_fresh (np : NumPy) (t : Ty) (o : Py) (hw : wf t = true) (hc : isComp t = true)
+    (ho : hasTy false t o = true) :
+    ∃ b, toBuiltin t o = .ok b ∧ update np.array t (defaultVal t) b = .ok o :=
+  C18_builtin_roundtrip np t o (defaultVal t) hw hc ho (hasTy_default t hw)
+
+/-- The fresh object is what the argument-free constructor returns (structures: every field default; unions: T2). -/
+theorem C18_struct_ctor_default (np : Oracle) (cls : Nat) (fs : List Ty) :
+    construct np (.comp cls false fs) [] = .ok (defaultVal (.comp cls false fs)) := by
+  have key : ∀ fs : List Ty, ctorStruct np fs [] = .ok (defaultS fs) := by
+    intro fs
+    induction fs with
+    | nil => rfl
+    | cons f fs ih =>
+      simp [ctorStruct, isNone, setField_default, ih, bind, Except.bind, pure, Except.pure, defaultS]
+  simp [construct, key, Except.map, defaultVal]
+
+set_option maxRecDepth 100000 in
+/-- Non-vacuity: a structure with a string-like array, a narrow-integer array holding an out-of-DSDL-range element,
+a float32 array with NaN, a union field with a composite-array option selected and a nested structure. -/
+example :
+    let I := Ty.comp 2 false [.int false 7 false, .bool]
+    let U := Ty.comp 3 true [.float 32 false, .arr true 2 I]
+    let S := Ty.comp 1 false [.arr false 5 (.int false 8 false), .arr false 4 (.int false 7 false),
+                              .arr false 3 (.float 32 false), U, I]
+    let o := Py.obj 1 [.nd (.u 8) [.int 104, .int 105], .nd (.u 8) [.int 1, .int 200],
+                       .nd (.f 32) [.float .nan, .float (.fin true 0)],
+                       .obj 3 [.none, .nd .obj [.obj 2 [.int 3, .bool true], .obj 2 [.int 0, .bool false]]],
+                       .obj 2 [.int 127, .bool false]]
+    wf S = true ∧ hasTy false S o = true ∧ hasTy true S o = false
+    ∧ toBuiltin S o = .ok (.dict [.str [104, 105], .list [.int 1, .int 200], .list [.float .nan, .float (.fin true 0)],
+          .dict [.missing, .list [.dict [.int 3, .bool true] false, .dict [.int 0, .bool false] false]] false,
+          .dict [.int 127, .bool false] false] false)
+    ∧ update npArray S (defaultVal S) (.dict [.str [104, 105], .list [.int 1, .int 200],
+          .list [.float .nan, .float (.fin true 0)],
+          .dict [.missing, .list [.dict [.int 3, .bool true] false, .dict [.int 0, .bool false] false]] false,
+          .dict [.int 127, .bool false] false] false) = .ok o := by
+  refine ⟨?_, ?_, ?_, ?_, ?_⟩ <;> rfl
+
+/-- `update_from_builtin` with keys missing keeps the destination's values, an unknown key raises `ValueError`,
+two union keys: the later *field* wins. -/
+example :
+    let U := Ty.comp 3 true [.int false 7 false, .bool]
+    update npArray U (.obj 3 [.int 5, .none]) (.dict [.missing, .missing] false) = .ok (.obj 3 [.int 5, .none])
+    ∧ update npArray U (.obj 3 [.int 5, .none]) (.dict [] true) = .error .value
+    ∧ update npArray U (.obj 3 [.int 5, .none]) (.dict [.int 1, .bool true] false) = .ok (.obj 3 [.none, .bool true]) := by
+  refine ⟨?_, ?_, ?_⟩ <;> rfl
+
 end NunavutVerif.PyObj
